@@ -198,6 +198,19 @@ I1Shapes == {<<1>>, <<2>>, <<2, 2>>}
 I1Pool(sh) == {[shape |-> sh, data |-> [k \in 1..ProdSeq(sh) |-> I1Vals[((k + s) % 4) + 1]]] : s \in 1..(IF ProdSeq(sh) = 4 THEN 3 ELSE 4)}
 Wrap8(q) == IF q = Undef \/ q[2] # 1 THEN Undef ELSE QI(((q[1] + 128) % 256) - 128)
 WrapArr8(a) == IF IsErr(a) THEN a ELSE [a EXCEPT !.data = [i \in DOMAIN a.data |-> Wrap8(a.data[i])]]
+\* Negative axis / dim arguments: NumPy counts them from the end (axis + rank; for stack the rank of the RESULT).
+\* Every place where an axis is a parameter: one-array reductions, stack, concat, take with an integer and a sequence.
+NegAxisCases(maxArgs) ==
+       UNION {IF 0 - ax <= Len(sh) THEN {C("single", f, <<a>>, ax, <<>>, <<>>) : <<f, a>> \in Reds \X Small(sh)} ELSE {}
+              : sh \in Shapes, ax \in (0 - 2)..(0 - 1)}
+  \cup UNION {IF 0 - ax <= Len(sh) + 1 THEN {C("stack", "stack", t, ax, <<>>, <<>>) : t \in Tuples(Small(sh), n)} ELSE {}
+              : sh \in Shapes, n \in 1..maxArgs, ax \in (0 - 3)..(0 - 1)}
+  \cup UNION {IF 0 - ax <= Len(sh) THEN {C("concat", "concat", t, ax, <<>>, <<>>) : t \in Tuples(Small(sh), n)} ELSE {}
+              : sh \in Shapes, n \in 1..maxArgs, ax \in (0 - 2)..(0 - 1)}
+  \cup UNION {IF 0 - ax <= Len(sh) THEN {C("take1", "take", <<a>>, ax, <<i>>, <<>>) : <<a, i>> \in Pool(sh) \X (0..(sh[Len(sh) + ax + 1] - 1))} ELSE {}
+              : sh \in Shapes, ax \in (0 - 2)..(0 - 1)}
+  \cup UNION {IF 0 - ax <= Len(sh) THEN {C("taken", "take", <<a>>, ax, is, <<>>) : <<a, is>> \in Small(sh) \X IdxSeqs(sh[Len(sh) + ax + 1])} ELSE {}
+              : sh \in Shapes, ax \in (0 - 2)..(0 - 1)}
 NarrowCases(top) ==          \* (a parameter so that TLC does not evaluate it when it starts)
        {CD("multi", f, t, 0, <<>>, <<>>, "bool") : <<f, t>> \in UNION {NarrowOps \X Tuples(BoolPool(sh), n) : <<sh, n>> \in BoolShapes \X (2..top)}}
   \cup {CD("multi", f, t, 0, <<>>, <<>>, "i1") : <<f, t>> \in UNION {NarrowOps \X Tuples(I1Pool(sh), n) : <<sh, n>> \in I1Shapes \X (2..top)}}
@@ -234,6 +247,7 @@ Cases(maxArgs) ==
               THEN {C("batched", f, t, 0, <<>>, parts) : <<f, t>> \in Variadic \X Tuples(Small(sh), n)} ELSE {}
               : sh \in {<<1>>, <<2>>, <<2, 2>>}, n \in 3..maxArgs, parts \in UNION {Comps(m) : m \in 3..maxArgs}}
   \cup NarrowCases(3)
+  \cup NegAxisCases(maxArgs)
 
 \* TLC evaluates every constant definition of a module when it starts, so each pass is guarded by IOEnv.PASS
 Generate == IOEnv.PASS = "generate" => (LET cs == SetToSeq(Cases(MaxArgs)) IN JsonSerialize(IOEnv.CASES_FILE, [i \in 1..Len(cs) |-> cs[i]]))
@@ -241,22 +255,25 @@ Generate == IOEnv.PASS = "generate" => (LET cs == SetToSeq(Cases(MaxArgs)) IN Js
 \* ------------------------------------------------------------------ post-condition
 AsSeq(x) == [i \in DOMAIN x |-> x[i]]
 ArgsOf(c) == [i \in DOMAIN c.args |-> IntArr(AsSeq(c.args[i].shape), AsSeq(c.args[i].data))]
-Spec(c) == LET a == ArgsOf(c) IN
+NormAxis(ax, rank) == IF ax < 0 THEN ax + rank ELSE ax            \* NumPy: a negative axis counts from the end
+Spec(c) == LET a == ArgsOf(c)
+               ax == NormAxis(c.axis, Len(a[1].shape) + (IF c.k = "stack" THEN 1 ELSE 0)) IN
   CASE c.k = "multi" -> MultiN(c.op, a)
     [] c.k = "all" -> ReduceAll(c.op, a[1])
-    [] c.k = "single" -> ReduceAxis(c.op, a[1], c.axis)
-    [] c.k = "stack" -> Stack(a, c.axis)
-    [] c.k = "concat" -> Concat(a, c.axis)
-    [] c.k = "take1" -> Take(a[1], c.idx[1], c.axis)
-    [] c.k = "taken" -> TakeSeq(a[1], AsSeq(c.idx), c.axis)
+    [] c.k = "single" -> ReduceAxis(c.op, a[1], ax)
+    [] c.k = "stack" -> Stack(a, ax)
+    [] c.k = "concat" -> Concat(a, ax)
+    [] c.k = "take1" -> Take(a[1], c.idx[1], ax)
+    [] c.k = "taken" -> TakeSeq(a[1], AsSeq(c.idx), ax)
     [] c.k = "bin" -> IF c.dt = "i1" THEN WrapArr8(Binary(c.op, a[1], a[2])) ELSE Binary(c.op, a[1], a[2])
     [] c.k = "batched" -> Apply(c.op, a, c.axis)
 ImplArr(r) == [shape |-> AsSeq(r.shape), data |-> [i \in DOMAIN r.data |-> Q(r.data[i][1], r.data[i][2])]]
-\* r = [np |-> res, xr |-> res], res = [shape, data] or [error]; marked = names carrying the marker
+\* r = [np |-> res, xr |-> res], res = [shape, data] or [error] or [skip]; marked = names carrying the marker
 PostOne(c, res, be, marked) ==
   LET n(what) == {be \o ":" \o c.op \o ":" \o c.k \o (IF c.dt = "f8" THEN "" ELSE "[" \o c.dt \o "]") \o ":" \o what}
       want == Spec(c)
   IN IF c.k = "batched" /\ c.op \notin marked THEN {}          \* nothing is promised for unmarked functions
+     ELSE IF "skip" \in DOMAIN res THEN {}                      \* the backend's API has no such call (axis given by name)
      ELSE IF HasUndef(want) THEN n("outside_model_range")      \* cannot happen on this domain; never skip silently
      ELSE IF "error" \in DOMAIN res THEN n("raised")
      ELSE LET got == ImplArr(res) IN
